@@ -702,6 +702,11 @@ func programs() []program {
 		v := vendingpb.NewModel()
 		par(func() { v.CreateConsumable(&traits.Consumable{}) }, func() { v.CreateStock(&traits.Consumable_Stock{}) })
 	})
+	add("vending/a model given one source of randomness: CreateConsumable||CreateStock", func() {
+		// (the option reaches both of the model's collections: they share the source)
+		v := vendingpb.NewModel(resource.WithRNG(rand.New(rand.NewSource(7))))
+		par(func() { v.CreateConsumable(&traits.Consumable{}) }, func() { v.CreateStock(&traits.Consumable_Stock{}) })
+	})
 	// two callers that build their write options from one pool (a slice with room behind what each passes):
 	// the options a model adds for itself must not land in the callers' array
 	add("light/UpdateBrightness(preset)||UpdateBrightness(preset), options from one pool", func() {
